@@ -1,6 +1,6 @@
 (* C15 — runners for the correspondence check (evaluated by vm_compute on the harness's cases). *)
 From Coq Require Import List NArith Bool.
-From Verif Require Import Kip.Budget Kip.BudgetInst Kip.Lex.
+From Verif Require Import Kip.Budget Kip.BudgetInst Kip.CallGraph Kip.Lex gen.Gen_KipGraph.
 Import ListNotations.
 
 (* inputs arrive run-length encoded: (code point, repetitions) *)
@@ -16,6 +16,7 @@ Definition run_budget (rle : list (N * N)) : bres := kip_budget (expand rle).
 (* case = (input, what the implementation's entry point answered) *)
 Definition check_budget (c : list (N * N) * bres) : bool := bres_eqb (run_budget (fst c)) (snd c).
 
-(* case = (base text, variant): same tokens up to the case of words, whitespace and comments *)
+(* case = (base text, variant): same tokens up to the case of words, whitespace and comments;
+   comments end where the parser's trivia skipper ends them (generated) *)
 Definition check_lex (c : list (N * N) * list (N * N)) : bool :=
-  lex_equiv (expand (fst c)) (expand (snd c)).
+  lex_equiv trivia_comment_terms (expand (fst c)) (expand (snd c)).
